@@ -1057,7 +1057,7 @@ def showSaveFn (f : SaveFn) : String :=
     * `reg-save <base> <payload>` → outcome;  `reg-path <name> <latest>`, `reg-latest <name>` → lookup
     * `reg-load <name> <latest>`, `reg-load-latest <name>` → loaded payload;  `reg-mk <name> <kind> <payload>` → `ok`
     * `reg-items` → `[[key,name],…] <warnings>` -/
-def driverStep (table : List SaveFn) (plugins : List ResultPlugin) (st : State) (ts : List Tree) : State × String :=
+def driverStepBase (table : List SaveFn) (plugins : List ResultPlugin) (st : State) (ts : List Tree) : State × String :=
   match ts with
   | [.atom "table"] => (st, showList (table.map showSaveFn))
   | [.atom "plugins"] => (st, showList (plugins.map showPlugin))
